@@ -37,7 +37,7 @@ RULE = ("Configuration = sampler {mh, mhcustom with a deterministic contraction,
         "nburnout 0-6 x step size x dim 1-3 x f output {scalar, vector, tuple, constant, its own argument, a view of it, a stored tensor} x backward-only sampler options x parameters of f and of log p "
         "{explicit tensors, held by one of 12 EditableModule / nn.Module kinds, f and log p on the same object or on two} "
         "x some tensors not requiring grad x an extra tensor entering neither function x usage {forward, backward, "
-        "graph-recording backward + second backward, linearity triple}; one torch RNG seed per run. The history of "
+        "graph-recording backward + second backward, linearity triple, peer failing at its k-th entry then retry}; one torch RNG seed per run. The history of "
         "points at which f, log p and the custom step are entered, and of RNG draws, is recorded and judged against the "
         "chain model. A case is non-trivial iff the sampler entered log p or the custom step at >=2 distinct points and "
         "a gradient was judged or nburnout>0; distinct = distinct (sampler, nsamples, nburnout, dim, f kind, parameter "
@@ -86,7 +86,8 @@ def draw_scenario(cs, cfg):
     sc["a_grad"] = not cs.bool("a_nograd", 1, 5)
     sc["c_grad"] = not cs.bool("c_nograd", 1, 5)
     sc["zkind"] = ["tensor_grad", "tensor_nograd", "float"][cs.weighted([3, 1, 1], "zkind")]
-    sc["usage"] = ["fwd", "bwd", "bwd2", "linearity"][cs.weighted([1, 4, 3, 1], "usage")]
+    sc["usage"] = ["fwd", "bwd", "bwd2", "linearity", "fault_retry"][cs.weighted([1, 4, 3, 1, 1], "usage")]
+    sc["fault_k"] = cs.randint(1, 12, "fault_k")
     sc["lb"], sc["ub"] = [(-2.0, 2.0), (-1.0, 3.0), (float("-inf"), float("inf"))][cs.draw(3, "bounds")]
     # options for the backward pass that differ from the forward ones: the backward pass integrates over the
     # samples of the forward pass, so sampler options given for it must not change which samples are used
@@ -408,6 +409,37 @@ def run(cs, cfg):
             V("linearity", "E[2 f1 - 3 f2] != 2 E[f1] - 3 E[f2] on the same samples (max abs err %.3e)" %
               float((r3 - (2.0 * r1 - 3.0 * r2)).abs().max()))
         cnt("reach.linearity_triple")
+    elif sc["usage"] == "fault_retry":
+        # one of the sampler's peers fails at its k-th entry; the same call with the same seed afterwards must
+        # give the same value (no sampler state survives a failed call) and leave the objects untouched
+        from xsim.probe import InjectedFault
+        k0 = SIM.seq
+        SIM.set_plan({k0 + sc["fault_k"]: "raise"})
+        fired = False
+        with warnings.catch_warnings():
+            warnings.simplefilter("ignore")
+            try:
+                call_mcquad(env, sc, fk)
+            except InjectedFault:
+                fired = True
+            except Exception as e:
+                fired = True
+                cnt("fault_rewrapped")
+        SIM.set_plan({})
+        if fired:
+            cnt("fault.raise")
+            for A, sn in zip(env.actors, snaps):
+                for inv, detail in compare(sn, A):
+                    V("object_state_after_fault", "%s: %s" % (inv, detail))
+            with warnings.catch_warnings():
+                warnings.simplefilter("ignore")
+                r2 = flat(call_mcquad(env, sc, fk)).detach()
+            cnt("fault.retry_after_fault")
+            if r2.shape != rf.shape or not torch.allclose(r2, rf.detach(), rtol=1e-12, atol=1e-12):
+                V("retry_differs", "the same call with the same seed after a failed call gives a different value "
+                  "(max abs diff %.3e)" % float((r2 - rf.detach()).abs().max()))
+        else:
+            cnt("fault_not_reached")
     elif sc["usage"] in ("bwd", "bwd2") and leaves:
         g = torch.Generator()
         g.manual_seed(77)
